@@ -20,6 +20,7 @@ type mismatch struct {
 	Impl    string   `json:"impl"`
 	Model   string   `json:"model"`
 	Tags    []string `json:"tags,omitempty"`
+	CorrOK  bool     `json:"corr_ok"`
 }
 
 type summary struct {
@@ -177,23 +178,28 @@ func runCmd(args []string) {
 				break
 			}
 			sum.Compared++
-			if d := p.compareRec(r, ms.m, false); d != "" {
-				sum.Mismatches++
-				enc.Encode(mismatch{Pid: pid, Program: line, Step: i, Kind: "corr", Detail: d, Impl: r.String(), Model: ms.m, Tags: ptags})
-				break
-			}
+			dCorr := p.compareRec(r, ms.m, false)
+			dSpec := ""
 			if ms.hasS && !specOff {
 				sum.SpecChecked++
-				d, off := p.compareSpec(r, ms.s)
+				var off bool
+				dSpec, off = p.compareSpec(r, ms.s)
 				if off {
 					specOff = true
 					sum.Outcomes["spec-allowed-alternative"]++
 				}
-				if d != "" {
-					sum.Mismatches++
-					enc.Encode(mismatch{Pid: pid, Program: line, Step: i, Kind: "spec", Detail: d, Impl: r.String(), Model: ms.s, Tags: ptags})
-					break
-				}
+			}
+			if dSpec != "" {
+				// the property itself is violated on this program; CorrOK tells whether the implementation
+				// at least does what the model (which mirrors known defects) predicts
+				sum.Mismatches++
+				enc.Encode(mismatch{Pid: pid, Program: line, Step: i, Kind: "spec", Detail: dSpec, Impl: r.String(), Model: ms.s, Tags: ptags, CorrOK: dCorr == ""})
+				break
+			}
+			if dCorr != "" {
+				sum.Mismatches++
+				enc.Encode(mismatch{Pid: pid, Program: line, Step: i, Kind: "corr", Detail: dCorr, Impl: r.String(), Model: ms.m, Tags: ptags})
+				break
 			}
 			if r.stop {
 				break
